@@ -5,6 +5,7 @@ import Blue.Proofs.VerifyJoin
 import Blue.Proofs.VerifyPair
 import Blue.Proofs.RecoverLedger
 import Blue.Proofs.ConstsTieC04
+import Blue.Proofs.BooksCrash
 /-! # Property C04 — one setsum covers all data: manifest, files and contents always balance
 
 Property theorems only.  Two layers, both over any commutative group (`Grp`; the canonical setsum
@@ -40,7 +41,22 @@ the fresh log): the records chain and the last output is the old one plus the re
 (`compensating_pair_rejected`, `gc_discard_erased_rejected`); with the discard comparison inside
 the garbage-collection block they are accepted (`guarded_check_accepts_pair`).
 
-Clauses of the property that are not theorems here: the crash points of C02 in general, and tampers of the
+Crash points (block `BooksCrash`, `Blue/Proofs/BooksCrash.lean`): the protocol model of C02
+(`Blue.StoreCrash`: puts, flushes, merge compactions, clean reopens, as system-call lists) with every
+manifest transaction BOOKED (`I` = Σ files, `D` = Σ removed − Σ added, `O = I − D`; a file's digest
+= the group sum of its batches under an item hash).  At every crash point of every history, under
+both persistence models, the manifest the crash leaves is a chain `Books.verify` accepts, its last
+`O` is the sum over the files it lists, every listed file is in `sst/` and recomputes to its digest,
+`from_manifest`'s comparison holds, and `O` plus the logs' batches is the sum over the batches
+`0 … k-1`, acknowledged ≤ k ≤ appended (`books_at_every_crash_point`); the reopen of that image
+appends exactly `recoverRecs` (`recover_chains`) and ends with `O` = old `O` + recovered files = the
+sum over those batches, `from_manifest` succeeding (`books_after_recovery`); and so on over any
+number of incarnations cut anywhere (`books_over_incarnations`, the shape of C02 `epochs_ok`,
+relative to the same `image false` assumption).  Outside: what is outside C02's alphabet (garbage
+collecting compactions in a continuing history, external ingest, the manifest's own rollover record,
+a flush racing a compaction), and the byte level of a torn manifest append (C13).
+
+Clauses of the property that are not theorems here: tampers of the
 first record of a fragment (`first_edit_checks` says what is checked there) — see `partial` in
 bin/props.py.  A trivial move writes no manifest edit.
 
@@ -473,6 +489,164 @@ theorem guarded_model_is_verify_one_otherwise (env : Env G) (acc : G) (es : List
 
 end Contents
 
+-- BEGIN BooksCrash
+/-! ## the books at the crash points of C02 -/
+section BooksCrash
+open Blue.StoreCrash Blue.StoreFault Blue.BooksCrash
+variable {G : Type} [DecidableEq G] (g : Grp G) (h : Nat → G)
+
+/-- **`books_at_every_crash_point`**: every history of C02's alphabet (puts, flushes, merge
+    compactions, clean reopens), every crash point `n` of its system-call sequence, both
+    persistence models (`b = true`: unsynced bytes are lost; `b = false`: completed calls persist).
+    `M` is the manifest the crash leaves (`maniOf`), `booked g h [] M` its records with the digests
+    the code writes (`I` = Σ files, `D` = Σ removed − Σ added, `O = I − D`; digest of a file = group
+    sum of its batches under the item hash `h`).  The verifier accepts the chain from the zero
+    setsum; its last `O` is the sum over the files it lists; every listed file is in `sst/` and the
+    digest recomputed from its bytes (as the persistence model shows them) is the recorded one;
+    the comparison `Tree::from_manifest` makes holds; and `O` plus the batches of the logs in the
+    directory that are not in a listed file is the group sum over the batches `0 … k-1`,
+    `acknowledged ≤ k ≤ appended`. -/
+theorem books_at_every_crash_point (hist : List Client) (n : Nat) (b : Bool) :
+    let fs := run fs0 ((opsOf hist kv0).take n)
+    let M := maniOf b fs
+    verify g (digest g h) g.zero (booked g h [] M) = true
+    ∧ maniO g h M = total g (digest g h) (live M)
+    ∧ (∀ nm ∈ live M, fileDigest g h (viewOf b) fs nm = some (digest g h nm))
+    ∧ fromManifestOk g h (viewOf b) M fs = true
+    ∧ ∃ k, acked ((opsOf hist kv0).take n) ≤ k ∧ k ≤ appended ((opsOf hist kv0).take n)
+        ∧ g.add (maniO g h M) (total g h (logPart (live M) (fs.logs.map (fun l => viewOf b l.2))))
+            = total g h (List.range k) :=
+  Blue.BooksCrash.books_at_every_crash_point g h hist n b
+
+/-- **`books_after_recovery`**: the reopen of that crash image (`image b`), at the point where
+    `recover` has run (`recover_one` per log, ascending: `recLogs`) and `from_manifest` compares.
+    The booked manifest is the old chain followed by `recoverRecs` (`recover_chains` above) on the
+    non-empty logs of the image; the verifier accepts it; its last `O` is the old `O` plus the
+    recovered files, is the sum over the files listed now, and is the group sum over the batches
+    `0 … k-1`, `acknowledged ≤ k ≤ appended` — every acknowledged batch, and of the unacknowledged
+    ones exactly those whose log append the image shows (at most the put in flight); every listed
+    file recomputes to its digest from written and from synced bytes; `from_manifest`'s comparison
+    succeeds; the rest of the open (`cleanup_orphans`, the new log) leaves that manifest. -/
+theorem books_after_recovery (hist : List Client) (n : Nat) (b : Bool) :
+    let img := image b (run fs0 ((opsOf hist kv0).take n))
+    let M := maniOf b (run fs0 ((opsOf hist kv0).take n))
+    let fs1 := run img (recLogs img.logs img)
+    img.maniDurable = M
+    ∧ (run img (recoverOps img)).maniDurable = fs1.maniDurable
+    ∧ booked g h [] fs1.maniDurable
+        = booked g h [] M ++ recoverRecs g (digest g h) (live M) (maniO g h M) (logNames img)
+    ∧ verify g (digest g h) g.zero (booked g h [] fs1.maniDurable) = true
+    ∧ maniO g h fs1.maniDurable = g.add (maniO g h M) (total g (digest g h) (recovered (live M) (logNames img)))
+    ∧ maniO g h fs1.maniDurable = total g (digest g h) (live fs1.maniDurable)
+    ∧ (∀ nm ∈ live fs1.maniDurable, fileDigest g h (·.data) fs1 nm = some (digest g h nm)
+        ∧ fileDigest g h (·.durable) fs1 nm = some (digest g h nm))
+    ∧ fromManifestOk g h (·.data) fs1.maniDurable fs1 = true
+    ∧ fromManifestOk g h (·.durable) fs1.maniDurable fs1 = true
+    ∧ ∃ k, acked ((opsOf hist kv0).take n) ≤ k ∧ k ≤ appended ((opsOf hist kv0).take n)
+        ∧ maniO g h fs1.maniDurable = total g h (List.range k) :=
+  Blue.BooksCrash.books_after_recovery g h hist n b
+
+/-- **`books_over_incarnations`** (C02 `epochs_ok` with the books): any number of incarnations,
+    each opening what the previous one left, running any history and cut anywhere — inside its
+    recovery too — by a crash under either persistence model (or a surfaced fault: the same
+    directory), from a directory of the class `Img` whose manifest is a good chain (`GoodTxs`: each
+    transaction removes, of the listed files, exactly its `rms`; the empty store: `img_empty`).  The
+    last directory is of the class again and its manifest is a good chain … -/
+theorem books_over_incarnations (es : List Epoch) (fs : Fs) (k : Nat) (himg : Img fs k)
+    (hgood : GoodTxs [] fs.maniDurable) :
+    ∃ k', Img (runEpochs fs es) k' ∧ k + ackedEpochs fs es ≤ k' ∧ k' ≤ k + appendedEpochs fs es
+      ∧ GoodTxs [] (runEpochs fs es).maniDurable :=
+  Blue.BooksCrash.books_over_incarnations es fs k himg hgood
+
+/-- … **and of such a directory the books hold**: the verifier accepts the booked manifest, `O` is
+    the sum over the listed files, each listed file recomputes to its digest, `from_manifest`'s
+    comparison holds, `O` plus the logs' batches not in a listed file is the sum over `0 … k-1` … -/
+theorem books_of_img {fs : Fs} {k : Nat} (himg : Img fs k) (hgood : GoodTxs [] fs.maniDurable) :
+    verify g (digest g h) g.zero (booked g h [] fs.maniDurable) = true
+    ∧ maniO g h fs.maniDurable = total g (digest g h) (live fs.maniDurable)
+    ∧ (∀ nm ∈ live fs.maniDurable, fileDigest g h (·.data) fs nm = some (digest g h nm))
+    ∧ fromManifestOk g h (·.data) fs.maniDurable fs = true
+    ∧ g.add (maniO g h fs.maniDurable)
+        (total g h (logPart (live fs.maniDurable) (fs.logs.map (fun l => l.2.data)))) = total g h (List.range k) :=
+  Blue.BooksCrash.books_of_img g h himg hgood
+
+/-- … and its next reopen extends the chain by `recoverRecs` to one the verifier accepts, ending at
+    the sum over all the batches `0 … k-1`, with `from_manifest`'s comparison succeeding -/
+theorem books_recovery_img {fs : Fs} {k : Nat} (himg : Img fs k) (hgood : GoodTxs [] fs.maniDurable) :
+    let fs1 := run fs (recLogs fs.logs fs)
+    booked g h [] fs1.maniDurable
+        = booked g h [] fs.maniDurable
+          ++ recoverRecs g (digest g h) (live fs.maniDurable) (maniO g h fs.maniDurable) (logNames fs)
+    ∧ verify g (digest g h) g.zero (booked g h [] fs1.maniDurable) = true
+    ∧ maniO g h fs1.maniDurable
+        = g.add (maniO g h fs.maniDurable) (total g (digest g h) (recovered (live fs.maniDurable) (logNames fs)))
+    ∧ maniO g h fs1.maniDurable = total g (digest g h) (live fs1.maniDurable)
+    ∧ maniO g h fs1.maniDurable = total g h (List.range k)
+    ∧ (∀ nm ∈ live fs1.maniDurable, fileDigest g h (·.data) fs1 nm = some (digest g h nm)
+        ∧ fileDigest g h (·.durable) fs1 nm = some (digest g h nm))
+    ∧ fromManifestOk g h (·.data) fs1.maniDurable fs1 = true
+    ∧ fromManifestOk g h (·.durable) fs1.maniDurable fs1 = true :=
+  Blue.BooksCrash.books_recovery_img g h himg hgood
+
+/-- the transactions of every history are good from the client's files; so is every prefix -/
+theorem history_txs_good (hist : List Client) (kv : Kv) : GoodTxs kv.files (appendedTxs (opsOf hist kv)) :=
+  good_hist hist kv
+
+/-- non-vacuity of the hypotheses of `books_over_incarnations`: the empty store -/
+example : Img fs0 0 ∧ GoodTxs [] fs0.maniDurable := ⟨img0, trivial⟩
+
+/-- the history and the crash image of the example below -/
+def exCrashOps : List Op := opsOf [.put, .put, .flush, .put] kv0
+def exCrashFs : Fs := run fs0 (exCrashOps.take 11)
+
+/-- non-vacuity, digests in ℤ mod 7 with item hash `b ↦ 3b + 1`: put, put, flush, put, cut after the
+    flush's manifest append and before its sync (call 11).  Model (b): the manifest is empty, `O = 0`,
+    the log holds both acknowledged batches; model (a): one record `I = 0, O = 5, D = 2` adding the
+    file `{0,1}`, accepted, `O = 5 = h 0 + h 1`.  The reopen: under (b) `recover_one` appends that
+    record (`recoverRecs` has one entry); under (a) the file is listed and it appends nothing; both
+    end with `O = 5`, the sum over the two acknowledged batches, and `from_manifest` agrees. -/
+example :
+    exCrashOps[10]? = some (Op.maniAppend ⟨[[0, 1]], []⟩) ∧ acked (exCrashOps.take 11) = 2
+    ∧ maniOf true exCrashFs = [] ∧ maniOf false exCrashFs = [⟨[[0, 1]], []⟩]
+    ∧ (booked z7 h7 [] (maniOf false exCrashFs)).map (fun r => (r.I, r.O, r.D)) = [(0, 5, 2)]
+    ∧ (booked z7 h7 [] (maniOf false exCrashFs)).map (fun r => (r.rm, r.ad)) = [([], [[0, 1]])]
+    ∧ verify z7 (digest z7 h7) 0 (booked z7 h7 [] (maniOf false exCrashFs)) = true
+    ∧ maniO z7 h7 (maniOf true exCrashFs) = 0 ∧ maniO z7 h7 (maniOf false exCrashFs) = 5
+    ∧ fromManifestOk z7 h7 (viewOf false) (maniOf false exCrashFs) exCrashFs = true
+    ∧ fromManifestOk z7 h7 (viewOf true) (maniOf true exCrashFs) exCrashFs = true
+    ∧ total z7 h7 (logPart (live (maniOf true exCrashFs)) (exCrashFs.logs.map (fun l => viewOf true l.2))) = 5
+    ∧ total z7 h7 (List.range 2) = 5
+    ∧ logNames (image true exCrashFs) = [[0, 1]]
+    ∧ (recoverRecs z7 (digest z7 h7) (live (maniOf true exCrashFs)) 0 (logNames (image true exCrashFs))).map
+        (fun r => (r.I, r.O, r.D)) = [(0, 5, 2)]
+    ∧ (recoverRecs z7 (digest z7 h7) (live (maniOf false exCrashFs)) 5 (logNames (image false exCrashFs))).length = 0
+    ∧ maniO z7 h7 (run (image true exCrashFs) (recLogs (image true exCrashFs).logs (image true exCrashFs))).maniDurable = 5
+    ∧ maniO z7 h7 (run (image false exCrashFs) (recLogs (image false exCrashFs).logs (image false exCrashFs))).maniDurable = 5
+    ∧ fromManifestOk z7 h7 (·.durable) (run (image true exCrashFs) (recLogs (image true exCrashFs).logs (image true exCrashFs))).maniDurable
+        (run (image true exCrashFs) (recLogs (image true exCrashFs).logs (image true exCrashFs))) = true := by decide
+
+/-- non-vacuity over incarnations (the epochs of C02's example): a flush cut (power loss) after its SST
+    is linked and before the manifest is written; the recovery of that image cut (power loss) right
+    after ITS manifest append, unsynced — the manifest is empty, `O = 0`, the log carries `h 0 + h 1 = 5`;
+    cut one call later (synced) — `O = 5`, one record; `from_manifest` agrees either way -/
+example :
+    let e1 : Epoch := ⟨[.put, .put, .flush], 2 + 6 + 4, true⟩
+    (runEpochs fs0 [e1, ⟨[], 3, true⟩]).maniDurable = []
+    ∧ total z7 h7 (logPart [] ((runEpochs fs0 [e1, ⟨[], 3, true⟩]).logs.map (fun l => l.2.data))) = 5
+    ∧ (runEpochs fs0 [e1, ⟨[], 4, true⟩]).maniDurable = [⟨[[0, 1]], []⟩]
+    ∧ maniO z7 h7 (runEpochs fs0 [e1, ⟨[], 4, true⟩]).maniDurable = 5
+    ∧ fromManifestOk z7 h7 (·.data) (runEpochs fs0 [e1, ⟨[], 4, true⟩]).maniDurable (runEpochs fs0 [e1, ⟨[], 4, true⟩]) = true := by
+  decide
+
+/-- as the model is: `ValidReqs` of `verifier_accepts` (distinct names) is not what the crash theorems
+    use — the alphabet allows a compaction with two empty outputs, after which the manifest lists the
+    name `[]` twice; `GoodTxs` holds of it and the books balance all the same -/
+example : validCompact kv0 (fun _ => true) [[], []]
+    ∧ live (appendedTxs (opsOf [.compact (fun _ => true) [[], []]] kv0)) = [[], []] := by decide
+
+end BooksCrash
+-- END BooksCrash
+
 end Blue.Props.C04
 
 #print axioms Blue.Props.C04.group
@@ -511,3 +685,9 @@ end Blue.Props.C04
 #print axioms Blue.Props.C04.pairs_rejected_example
 #print axioms Blue.Props.C04.guarded_check_accepts_pair
 #print axioms Blue.Props.C04.guarded_model_is_verify_one_otherwise
+#print axioms Blue.Props.C04.books_at_every_crash_point
+#print axioms Blue.Props.C04.books_after_recovery
+#print axioms Blue.Props.C04.books_over_incarnations
+#print axioms Blue.Props.C04.books_of_img
+#print axioms Blue.Props.C04.books_recovery_img
+#print axioms Blue.Props.C04.history_txs_good
